@@ -18,7 +18,7 @@ CHECKS = {
                  "or 2-4 concurrent subscriptions, licence on/off); stand-alone counters x every word of length <= 3 x subscriptions x licence. Non-trivial = arity >= 2, or >= 2 "
                  "subscriptions, or an ending other than completion; distinct by descriptor hash."),
         "quick": {"rapid": 200, "timeout": 300, "shards": 4},
-        "thorough": {"rapid": 4000, "timeout": 3000, "shards": 16},
+        "thorough": {"rapid": 30000, "timeout": 3000, "shards": 16},
         "assumptions": COMMON_ASSUMPTIONS + ["the licence check is switched by the verif-tagged setter VerifSetLicenseBypass (the real check needs a vendor-signed key)",
                         "metrics are read back through prometheus.Registry.Gather on the collector returned by PipeN"],
         "technique": "differential property-based testing (instrumented PipeN vs plain composition: trace, context values, source release) + exact counter equalities against counting taps",
@@ -71,7 +71,7 @@ CHECKS = {
                  "up to the stated length (illegal suffixes included) plus rapid scripts. Non-trivial = a cut, a stalled or stopping consumer, capacity below the number of values, or an "
                  "error ending; distinct by descriptor hash."),
         "quick": {"rapid": 300, "timeout": 300, "shards": 4},
-        "thorough": {"rapid": 5000, "timeout": 3000, "shards": 16},
+        "thorough": {"rapid": 60000, "timeout": 3000, "shards": 16},
         "assumptions": COMMON_ASSUMPTIONS + ["testing/synctest quiescence decides 'the reader is not blocked', 'the producer has returned' and 'no goroutine is left'"],
         "technique": "property-based testing: enumerated consumer/producer behaviours in synctest bubbles with a materialised-sequence oracle; round-trip and model oracles for the synchronous bridges",
         "level_text": ("Exploration. ToChannel: exactly one channel is handed out; what a consumer reads is the materialised notification sequence in order (a prefix when cut); the channel "
@@ -88,7 +88,7 @@ CHECKS = {
                  "Timestamp, Timeout under a slow observer): cases = (operator, duration, gaps, observer delays). Non-trivial = a cut strictly inside the timeline, or >= 2 source values "
                  "with a gap within 1 ms of the configured duration, or a periodic source; distinct by descriptor hash."),
         "quick": {"rapid": 300, "timeout": 300, "shards": 4},
-        "thorough": {"rapid": 5000, "timeout": 3000, "shards": 16},
+        "thorough": {"rapid": 20000, "timeout": 3000, "shards": 16},
         "assumptions": COMMON_ASSUMPTIONS + ["virtual-time stamps come from testing/synctest's fake clock: comparisons are exact and load-independent; the real-time part asserts one-sided bounds only"],
         "technique": "property-based testing of generated timelines in virtual time (testing/synctest) with lower-bound / order / count oracles; one-sided real-time bounds for the operators bound to the process clock",
         "level_text": ("Exploration. Timer, Interval, IntervalWithInitial, Range/RepeatWithInterval, Delay, DelayEach, Timeout, SampleTime, ThrottleWhen(Interval), BufferWithTime, "
@@ -104,7 +104,7 @@ CHECKS = {
                  "MapErr failing at the n-th value, external Unsubscribe, cancellation of the subscription context}, cut position). The source is NOT driven again after the cut. Every case is "
                  "non-trivial (the source is still live at the cut); distinct by descriptor hash."),
         "quick": {"rapid": 150, "timeout": 300, "shards": 4},
-        "thorough": {"rapid": 3000, "timeout": 3000, "shards": 16},
+        "thorough": {"rapid": 20000, "timeout": 3000, "shards": 16},
         "assumptions": COMMON_ASSUMPTIONS + ["testing/synctest: after synctest.Wait() a goroutine that is still blocked is definitely blocked; time is virtual"],
         "technique": "property-based testing inside testing/synctest bubbles: enumerated stage x terminator x cut position, release and return observed at bubble quiescence (no timeouts)",
         "level_text": ("Exploration. Each stage of the catalogue (and ten time-driven / hand-off / context stages) is put between a never-ending source and each early terminator; "
@@ -171,7 +171,7 @@ CHECKS = {
                  "asynchronous attempts, optional cancellation of the subscription context during attempt j). Non-trivial = at least two attempts with different outcomes, or "
                  "several sources, or a cancellation; distinct by descriptor hash."),
         "quick": {"rapid": 400, "timeout": 300, "shards": 4},
-        "thorough": {"rapid": 6000, "timeout": 3000, "shards": 16},
+        "thorough": {"rapid": 60000, "timeout": 3000, "shards": 16},
         "assumptions": COMMON_ASSUMPTIONS + ["unbounded re-subscription is cut out-of-band: past 12 subscriptions the instrumented source completes and raises a flag"],
         "technique": "property-based testing: enumerated outcome sequences against a reference model with subscription counting and a sequencing monitor on the instrumented sources",
         "level_text": ("Exploration. An instrumented source whose n-th subscription plays the n-th outcome script is put under every re-subscribing operator; for every outcome "
@@ -222,7 +222,7 @@ CHECKS = {
                  "(constructor, script, sync/async source, number of concurrent Wait callers, slow terminal callback); (chain, terminating script) for Collect. "
                  "Non-trivial = the cut is strictly inside the script, or >= 2 concurrent callers, or an asynchronous source; distinct by descriptor hash."),
         "quick": {"rapid": 300, "timeout": 300, "shards": 4},
-        "thorough": {"rapid": 4000, "timeout": 3000, "shards": 16},
+        "thorough": {"rapid": 60000, "timeout": 3000, "shards": 16},
         "assumptions": COMMON_ASSUMPTIONS + ["'never returns' verdicts use a 10 s real-time bound on operations that are synchronous and finite by construction; 'returns early' verdicts are one-sided"],
         "technique": "property-based testing: history invariant over logical stamps (no callback begins after Unsubscribe returned), Wait/terminal ordering, Collect vs observer differential",
         "level_text": ("Exploration. Every synchronous catalogue row (all params) and random chains are cut by Unsubscribe after every prefix of the script, from the emitting "
@@ -257,7 +257,7 @@ CHECKS = {
                  "length, ending, per-item consumer delays); non-trivial = length > capacity and a consumer that stalls at least once. Distinct by descriptor hash. "
                  "'bound-reached' in classes counts the hand-off cases where the producer actually got capacity+1 ahead (the bound is exercised, not vacuous)."),
         "quick": {"rapid": 200, "timeout": 300, "shards": 4},
-        "thorough": {"rapid": 3000, "timeout": 3000, "shards": 16, "fuzz": {"seconds": 30, "targets": ["FuzzC08_SyncChainsRandom"]}},
+        "thorough": {"rapid": 12000, "timeout": 3000, "shards": 16, "fuzz": {"seconds": 30, "targets": ["FuzzC08_SyncChainsRandom"]}},
         "assumptions": COMMON_ASSUMPTIONS + ["hand-off bounds are upper bounds sampled in the producer and the consumer; machine load can only make them easier to satisfy"],
         "technique": "property-based testing: step-wise differential against an incremental reference model (count, goroutine id, stamp window) + generated consumer-stall patterns with an upper-bound invariant",
         "level_text": ("Exploration. Sync clause: for every synchronous catalogue row (all params, scripts of length <= 4/5) and rapid chains, after each individual "
@@ -276,7 +276,7 @@ CHECKS = {
                  "panic(string), panic(non-error value) or a returned error. Invocation indices come from a fault-free dry run, so every injected fault is reachable. "
                  "Non-trivial = invocation index >= 1, or the position is the subscribe function or an observer callback, or a chain/pair; distinct by descriptor hash."),
         "quick": {"rapid": 400, "timeout": 300, "shards": 4},
-        "thorough": {"rapid": 6000, "timeout": 3000, "shards": 16, "fuzz": {"seconds": 30, "targets": ["FuzzC07_FaultsInChainsRandom"]}},
+        "thorough": {"rapid": 20000, "timeout": 3000, "shards": 16, "fuzz": {"seconds": 30, "targets": ["FuzzC07_FaultsInChainsRandom"]}},
         "assumptions": COMMON_ASSUMPTIONS,
         "technique": "fault injection by enumeration (position x invocation index x kind) + rapid fault pairs in chains, judged by a fault-aware reference model",
         "level_text": ("Fault enumeration. For every catalogue row with user callbacks (and the source / observer callback positions) every reachable invocation index is "
@@ -293,7 +293,7 @@ CHECKS = {
                  "subscription context {WithValue, WithCancel, WithDeadline, custom type}). Non-trivial = the case exercises a terminal path (error/complete ending) "
                  "or a row that stores items (SkipLast, TakeLast, Min/Max, Reduce) - not just pass-through Next; distinct by descriptor hash."),
         "quick": {"rapid": 400, "timeout": 300, "shards": 4},
-        "thorough": {"rapid": 6000, "timeout": 3000, "shards": 16, "fuzz": {"seconds": 30, "targets": ["FuzzC09_ChainsRandom"]}},
+        "thorough": {"rapid": 30000, "timeout": 3000, "shards": 16, "fuzz": {"seconds": 30, "targets": ["FuzzC09_ChainsRandom"]}},
         "assumptions": COMMON_ASSUMPTIONS,
         "technique": "property-based testing: marker propagation invariants over enumerated rows and rapid chains (subscription marker, upstream marker, per-item provenance, non-nil)",
         "level_text": ("Exploration. Every catalogue row (all variants incl. the context-aware callbacks) and random chains are subscribed with a context carrying a marker; "
@@ -312,7 +312,7 @@ CHECKS = {
                  "row/chain keeps per-subscription state (index, accumulator, buffer, seen-set, counter) or re-subscribes, or an operator value is applied to "
                  ">= 2 sources; distinct by descriptor hash."),
         "quick": {"rapid": 400, "timeout": 300, "shards": 4},
-        "thorough": {"rapid": 6000, "timeout": 3000, "shards": 16, "fuzz": {"seconds": 30, "targets": ["FuzzC12_Random"]}},
+        "thorough": {"rapid": 20000, "timeout": 3000, "shards": 16, "fuzz": {"seconds": 30, "targets": ["FuzzC12_Random"]}},
         "assumptions": COMMON_ASSUMPTIONS,
         "technique": "property-based testing: differential (n-th / concurrent / co-applied subscription vs first subscription of a fresh pipeline) + model-derived source-subscription counts",
         "level_text": ("Exploration. For every catalogue row (all variants, boundary parameters) and rapid-generated chains, over cold instrumented sources: the trace of "
@@ -329,7 +329,7 @@ CHECKS = {
                  "(2-4 goroutines each playing a word into one safe observable or subject, 5 repetitions each, slow Next callback). Non-trivial = the word "
                  "has at least one notification after its first terminal, or >= 2 producers with a terminal among their words; distinct by descriptor hash."),
         "quick": {"rapid": 300, "timeout": 300, "shards": 4},
-        "thorough": {"rapid": 5000, "timeout": 3000, "shards": 16},
+        "thorough": {"rapid": 20000, "timeout": 3000, "shards": 16},
         "assumptions": COMMON_ASSUMPTIONS,
         "technique": "property-based testing: exhaustive word enumeration + rapid-generated concurrent producers, judged by a grammar automaton and drop-hook accounting",
         "level_text": ("Exploration. A raw recording observer (no status guard of its own) is attached through Subscribe to every observable constructor, every "
@@ -347,7 +347,7 @@ CHECKS = {
                  "Pipe/PipeN/PipeOpN arities 1..25). A case is non-trivial when the input has >= 1 value, or it is a chain of >= 2 stages; "
                  "distinct = distinct (row/chain, variant, params, script) descriptor, counted by hash set."),
         "quick": {"rapid": 300, "timeout": 300, "shards": 4},
-        "thorough": {"rapid": 4000, "timeout": 3000, "shards": 16, "fuzz": {"seconds": 30, "targets": ["FuzzC04_ChainsRandom", "FuzzC04_LongScripts", "FuzzC04_MathTyped"]}},
+        "thorough": {"rapid": 12000, "timeout": 3000, "shards": 16, "fuzz": {"seconds": 30, "targets": ["FuzzC04_ChainsRandom", "FuzzC04_LongScripts", "FuzzC04_MathTyped"]}},
         "assumptions": COMMON_ASSUMPTIONS,
         "technique": "property-based testing: bounded-exhaustive enumeration + rapid generation against a reference model; variant and composition differentials",
         "level_text": ("Exploration. Every catalogue row (about 65 behaviours, all their plain/I/WithContext/IWithContext/alias variants) is run on every value "
